@@ -150,6 +150,47 @@ theorem unknown_framework_rejected (p : Prog) (s : Scenario) (hv : p.nextVia ≠
   | nil => exact absurd h hv
   | cons v r => simp [hf]
 
+/-! ## Option guards (the defect repaired by /repo d41329a must not hide inside a recorded finding) -/
+
+/-- micro `NewStreamWrapper` with the guards as they were before d41329a: `serverResourceExtract` tested,
+`streamServerResourceExtract` called; `serverBlockFallback` tested, `streamServerBlockFallback` called -/
+def microStreamWrapperMisguarded : Prog := ⟨"micro/server.go:NewStreamWrapper.func1", "micro", [],
+  [.badGuard, .entry, .ifBlocked [.reject [["misguarded"], ["Send"]], .ret], .exitNow, .ret]⟩
+
+/-- the reverted function is **not** a recorded finding (the recorded copy is the repaired body, whose only defect is
+the early `Exit`) and it fails every scenario: the check reports it -/
+theorem option_guards_witness :
+    isKnown microStreamWrapperMisguarded = false ∧
+    ∀ s : Scenario, conforms microStreamWrapperMisguarded s = false := by
+  refine ⟨by decide, ?_⟩
+  intro s; rcases s with ⟨b, h⟩; cases b <;> cases h <;> decide
+
+/-- a trace with a mis-guarded option call never conforms -/
+theorem badGuard_rejected (sc : Scenario) (tr : List Ev) (h : Ev.badGuard ∈ tr) : conformsTrace sc tr = false := by
+  have : count .badGuard tr ≠ 0 := by unfold count; exact Nat.ne_of_gt (List.count_pos_iff.mpr h)
+  unfold conformsTrace
+  simp [this]
+
+/-- an alternative with a mis-guarded option call is never a good rejection, for any framework and whatever else it calls -/
+theorem misguarded_never_good (alts : List (List String)) (f : String → Bool) (a : List String)
+    (ha : a ∈ alts) (hm : "misguarded" ∈ a) : allAlts alts f = false := by
+  unfold allAlts
+  have : (alts.all fun a => !a.contains "misguarded" && a.any f) = false := by
+    apply Bool.eq_false_iff.mpr
+    intro hall
+    have := (List.all_eq_true.mp hall) _ ha
+    simp [hm] at this
+  rw [this]
+  simp
+
+/-- recorded means *exactly* a recorded copy: key, framework, handler-call kinds and the whole body -/
+theorem isKnown_exact {p : Prog} (h : isKnown p = true) :
+    ∃ k ∈ knownProgs, k.key = p.key ∧ k.fw = p.fw ∧ k.nextVia = p.nextVia ∧ beqList k.body p.body = true := by
+  unfold isKnown at h
+  obtain ⟨k, hk, hb⟩ := List.any_eq_true.mp h
+  simp only [Bool.and_eq_true, beq_iff_eq] at hb
+  exact ⟨k, hk, hb.1.1.1, hb.1.1.2, hb.1.2, hb.2⟩
+
 /-! ## General lemmas about the IR semantics (independent of the table, for every chain `ch`) -/
 
 theorem conforms_mk (k fw : String) (via : List String) (b : List Stmt) (s : Scenario) :
@@ -235,7 +276,7 @@ theorem conforms_entry_first (sc : Scenario) (tr : List Ev) (h : conformsTrace s
     tr.head? = some .entryAsked := by
   unfold conformsTrace at h
   simp only [Bool.and_eq_true, decide_eq_true_eq] at h
-  exact h.1.1.1.1
+  exact h.1.1.1.1.1
 
 /-- an admitted request whose entry is never exited does not conform -/
 theorem admitted_needs_exit (hd : Handler) (tr : List Ev) (h : Ev.exit ∉ tr) : conformsTrace ⟨false, hd⟩ tr = false := by
@@ -302,6 +343,7 @@ theorem exec_prefix (ch : Chain) (sc : Scenario) : ∀ (x : Stmt) (s : St), s.tr
         · simp
       · simp
   | .unknown, s => by simp [exec]
+  | .badGuard, s => by simp [exec]
 theorem execList_prefix (ch : Chain) (sc : Scenario) : ∀ (l : List Stmt) (s : St), s.trace <+: (execList ch sc s l).trace
   | [], s => by simp [execList]
   | x :: r, s => by
@@ -394,6 +436,7 @@ theorem exec_blocked_inv (ch : Chain) (sc : Scenario) (hb : sc.blocked = true) :
         · simp [h]
       · simp [h]
   | .unknown, s, h => by simp [exec, h]
+  | .badGuard, s, h => by simp [exec, h]
 theorem execList_blocked_inv (ch : Chain) (sc : Scenario) (hb : sc.blocked = true) :
     ∀ (l : List Stmt) (s : St), s.entryNil = true →
       (execList ch sc s l).entryNil = true ∧ s.deferred ≤ (execList ch sc s l).deferred
